@@ -2,4 +2,4 @@
    N, positive, nat stay Coq datatypes; no Extract Constant. *)
 From Adeu Require Import Str Trim Diff Markup MarkupX Chars Doc Norm Prims ParaMachine Project DocOps Review Inst Engine Package.
 Require Extraction. Require Import ExtrOcamlBasic.
-Extraction "Extract/model.ml" trim_ascii trim_u tokens_u doc_spans_u extract_u normalize_para normalize_doc accept_doc reject_doc accept_all_doc doc_has_id route apply_actions apply_edits build_map review_session ensure_comment_parts edits_of_diffs apply_script render_ascii find_match_x isspace_u isword_u isupper_u islower_u.
+Extraction "Extract/model.ml" trim_ascii trim_u tokens_u doc_spans_u extract_u normalize_para normalize_doc accept_doc reject_doc accept_all_doc doc_has_id route apply_actions apply_edits apply_edits_x build_map review_session ensure_comment_parts edits_of_diffs apply_script render_ascii find_match_x isspace_u isword_u isupper_u islower_u.
